@@ -143,6 +143,19 @@ def run(ctx):
                   f'the list pruned by is_alive() is stored to `{d or norm(t)}` ({readers} readers) instead of the registry `{REG}` '
                   'that register_child appends to and that is yielded: dead workers are never dropped',
                   where=loc(act_f, st))
+    # the registry is ONE list, an attribute of the class that defines it: a store through `cls` / `self` / `type(self)` creates a second, private
+    # attribute on whatever subclass (or instance) the method was reached through, which shadows the real registry from then on
+    for f in (act_f, reg_f):
+        for st in walk_local(f.node):
+            if isinstance(st, (ast.Assign, ast.AugAssign)):
+                for tg in (st.targets if isinstance(st, ast.Assign) else [st.target]):
+                    base = tg.value if isinstance(tg, ast.Subscript) else tg
+                    d = dotted(base) or ''
+                    if d.split('.')[-1] in (REG, LOCK) and '.' in d and not isinstance(tg, ast.Subscript):
+                        ctx.check('R1', f'{f.short}: the registry attribute is rebound only on the defining class', d.split('.')[0] == W.name, f.short, f'registry-rebound-through:{d.split(".")[0]}',
+                                  f'`{norm(st)[:70]}` rebinds the registry through `{d.split(".")[0]}`: called through a subclass or an instance it creates a private list there which '
+                                  'shadows the list of Worker - that class never sees workers registered afterwards and keeps the ones it listed (and their results) for ever',
+                                  where=loc(f, st))
     # read-modify-write atomicity: everything the written-back value is computed from (the read of the registry, every
     # definition of every local on the way - copies, filters, slices) lies in the critical section that stores it
     for st in reg_stores(act_f, REG):
